@@ -31,6 +31,7 @@ class Module:
         self.src = src
         self.tree = ast.parse(src, filename=relpath)
         normalise_comparisons(self.tree)
+        normalise_if_polarity(self.tree)
         self.funcs = {}  # qualname -> FunctionDef
         self.classes = {}  # qualname -> ClassDef
         self._index(self.tree, "", None)
@@ -253,6 +254,21 @@ def normalise_comparisons(tree):
     return tree
 
 
+def normalise_if_polarity(tree):
+    """`if not X: A else: B` -> `if X: B else: A` (in place) when there is a plain else branch: one
+    polarity per two-way branch, so that swapping the branches of an if/else changes no verdict."""
+    for n in ast.walk(tree):
+        if isinstance(n, ast.If) and n.orelse and isinstance(n.test, ast.UnaryOp) and isinstance(n.test.op, ast.Not):
+            if len(n.orelse) == 1 and isinstance(n.orelse[0], ast.If) and n.orelse[0].col_offset == n.col_offset:
+                continue  # elif chain
+            n.test = n.test.operand
+            n.body, n.orelse = n.orelse, n.body
+        elif isinstance(n, ast.IfExp) and isinstance(n.test, ast.UnaryOp) and isinstance(n.test.op, ast.Not):
+            n.test = n.test.operand
+            n.body, n.orelse = n.orelse, n.body
+    return tree
+
+
 _canon_cache = {}
 
 
@@ -262,7 +278,7 @@ def canon_text(s):
     c = _canon_cache.get(s)
     if c is None:
         try:
-            c = " ".join(ast.unparse(normalise_comparisons(ast.parse(s))).split())
+            c = " ".join(ast.unparse(normalise_if_polarity(normalise_comparisons(ast.parse(s)))).split())
         except (SyntaxError, ValueError, RecursionError):
             c = s
         _canon_cache[s] = c
@@ -568,3 +584,15 @@ def subseq(stmts, texts):
         if i < len(texts) and unparse(s_, 400) == texts[i]:
             i += 1
     return i == len(texts)
+
+
+def cond_holds(conds, text, value=True):
+    """Among guarding conditions [(if-node, test, polarity)] (or [(test, polarity)]): is the expression
+    `text` known to be `value`?  `not E` under polarity p counts as E under (not p)."""
+    for c in conds:
+        t, pol = c[-2], c[-1]
+        while isinstance(t, ast.UnaryOp) and isinstance(t.op, ast.Not):
+            t, pol = t.operand, not pol
+        if unparse(t, 400) == text and pol == value:
+            return True
+    return False
